@@ -148,7 +148,16 @@ def check_chunk(spec, ctx):
         loc = mkloc(L, seq_to_parent(G, alphabet=Alphabet.NT_STRICT, seq_id=name))
     else:
         loc = mkloc(L, Parent(id=name, sequence_type="chromosome"))
-    chunk_parent = seq_chunk_to_parent(G[cs:ce], name, cs, ce, alphabet=Alphabet.NT_STRICT)
+    st1, st2 = spec.get("chunk_strand", "+"), spec.get("chunk2_strand", "+")
+
+    def mk_chunk(a, b, st_):
+        sub = G[a:b] if st_ == "+" else rm.revcomp(G[a:b])
+        return seq_chunk_to_parent(sub, name, a, b, strand=STRAND[st_], alphabet=Alphabet.NT_STRICT)
+
+    def on_chunk(ps, a, b, st_):
+        return [p - a for p in ps] if st_ == "+" else [b - 1 - p for p in ps]
+
+    chunk_parent = mk_chunk(cs, ce, st1)
     inside = [p for p in pos if cs <= p < ce]
     bl = rm.sorted_blocks(L["blocks"])
     if any(s < cs < e or s < ce < e for s, e in bl):
@@ -157,17 +166,21 @@ def check_chunk(spec, ctx):
         ctx.nt("chunk_misses")
     if L["strand"] == "-":
         ctx.label("minus")
+    if st1 == "-":
+        ctx.label("minus_chunk")
     lifted = AbstractInterval.liftover_location_to_seq_chunk_parent(loc, chunk_parent)
     if not inside:
         ctx.true("chunk_miss_is_empty", lifted is EmptyLocation(), repr(lifted))
         return
     if not ctx.true("chunk_hit_not_empty", lifted is not EmptyLocation() and not lifted.is_empty, repr(lifted)):
         return
-    rm.wellformed(lifted, ctx, "chunk_lift", optimized=False, parent_len=ce - cs, expect_strand=L["strand"])
-    ctx.eq("chunk_relative_positions", rm.loc_positions(lifted), [p - cs for p in inside])
+    strand1 = rm.compose(L["strand"], st1)
+    rm.wellformed(lifted, ctx, "chunk_lift", optimized=False, parent_len=ce - cs, expect_strand=strand1)
+    ctx.eq("chunk_relative_positions", rm.loc_positions(lifted), on_chunk(inside, cs, ce, st1))
     # the block structure (incl. adjacent blocks, which model frameshifts in CDS) is kept, clipped to the window
-    exp_blocks = [(max(s_, cs) - cs, min(e_, ce) - cs) for s_, e_ in bl if max(s_, cs) < min(e_, ce)]
-    ctx.eq("chunk_block_structure", [b for b in rm.loc_blocks(lifted) if b[1] > b[0]], exp_blocks)
+    clipped = [(max(s_, cs), min(e_, ce)) for s_, e_ in bl if max(s_, cs) < min(e_, ce)]
+    exp_blocks = [(a - cs, b - cs) for a, b in clipped] if st1 == "+" else sorted((ce - b, ce - a) for a, b in clipped)
+    ctx.eq("chunk_block_structure", sorted(b for b in rm.loc_blocks(lifted) if b[1] > b[0]), sorted(exp_blocks))
     if any(bl[i][1] == bl[i + 1][0] for i in range(len(bl) - 1)):
         ctx.label("adjacent_blocks")
     ctx.eq("chunk_sequence", str(lifted.extract_sequence()), rm.seq_image(G, inside, L["strand"]))
@@ -177,20 +190,24 @@ def check_chunk(spec, ctx):
     ctx.eq("chunk_roundtrip_strand", rm.loc_strand(back), L["strand"])
     ctx.true("chunk_roundtrip_parent", back.parent is not None and back.parent.id == name and back.parent.sequence_type == "chromosome", repr(back.parent)[:100])
     same = lifted.lift_over_to_first_ancestor_of_type("sequence_chunk")
-    ctx.eq("chunk_identity_lift", rm.loc_positions(same), [p - cs for p in inside])
-    # chunk -> second chunk
+    ctx.eq("chunk_identity_lift", rm.loc_positions(same), on_chunk(inside, cs, ce, st1))
+    # chunk -> second chunk (the composition chunk 1 -> chromosome -> chunk 2, whatever the two chunk strands)
     cs2, ce2 = spec["chunk2"]
-    chunk2 = seq_chunk_to_parent(G[cs2:ce2], name, cs2, ce2, alphabet=Alphabet.NT_STRICT)
+    chunk2 = mk_chunk(cs2, ce2, st2)
     ctx.label("chunk_to_chunk")
+    if st1 == "-" or st2 == "-":
+        ctx.label("chunk_to_chunk_with_minus_chunk")
     inside2 = [p for p in inside if cs2 <= p < ce2]
     l2 = AbstractInterval.liftover_location_to_seq_chunk_parent(lifted, chunk2)
     if not inside2:
         ctx.true("chunk2_miss_is_empty", l2 is EmptyLocation(), repr(l2))
     elif ctx.true("chunk2_hit_not_empty", l2 is not EmptyLocation(), repr(l2)):
-        ctx.eq("chunk2_relative_positions", rm.loc_positions(l2), [p - cs2 for p in inside2])
+        ctx.eq("chunk2_relative_positions", rm.loc_positions(l2), on_chunk(inside2, cs2, ce2, st2))
+        ctx.eq("chunk2_strand", rm.loc_strand(l2), rm.compose(L["strand"], st2))
         ctx.eq("chunk2_sequence", str(l2.extract_sequence()), rm.seq_image(G, inside2, L["strand"]))
         b2 = l2.lift_over_to_first_ancestor_of_type("chromosome")
         ctx.eq("chunk2_roundtrip_positions", rm.loc_positions(b2), inside2)
+        ctx.eq("chunk2_roundtrip_strand", rm.loc_strand(b2), L["strand"])
     # whole-chromosome parent: identity
     whole = seq_to_parent(G, alphabet=Alphabet.NT_STRICT, seq_id=name)
     lw = AbstractInterval.liftover_location_to_seq_chunk_parent(loc, whole)
@@ -249,7 +266,8 @@ def strat_chunk(draw, tier="quick"):
         if mode == 1:
             return [lo, hi]
         return [a, b]
-    return {"genome": G, "loc": L, "chunk": window(), "chunk2": window(), "loc_parent": draw(st.sampled_from(["none", "chrom_seq", "chrom_id"]))}
+    return {"genome": G, "loc": L, "chunk": window(), "chunk2": window(), "loc_parent": draw(st.sampled_from(["none", "chrom_seq", "chrom_id"])),
+            "chunk_strand": draw(st.sampled_from(["+", "+", "-"])), "chunk2_strand": draw(st.sampled_from(["+", "+", "-"]))}
 
 
 PROP = Prop(
@@ -259,8 +277,8 @@ PROP = Prop(
             must_hit=["depth>=3", "two_minus_levels", "block_split_across_parent_blocks", "no_ancestor", "lift_by_sequence"],
             rule="hierarchies of depth 1..3 (4 levels incl. root), each level placed on its parent by a 1..3-block location on either strand, sequences extracted from the root; child locations of 1..3 blocks; every ancestor as target by type and by sequence identity; absent ancestors"),
         Leg("chunk", check_chunk, strategy=strat_chunk, n_quick=1200, n_thorough=10000, shards_quick=4,
-            must_hit=["chunk_cuts_block", "chunk_misses", "chunk_to_chunk", "minus"],
-            rule="chromosome locations x chunk windows through seq_chunk_to_parent and liftover_location_to_seq_chunk_parent, lifted down, back up, and on to a second chunk"),
+            must_hit=["chunk_cuts_block", "chunk_misses", "chunk_to_chunk", "minus", "minus_chunk", "chunk_to_chunk_with_minus_chunk"],
+            rule="chromosome locations x chunk windows x chunk strands (a chunk may be the reverse complement of its window) through seq_chunk_to_parent and liftover_location_to_seq_chunk_parent, lifted down, back up, and on to a second chunk of either strand"),
     ],
     rule="Oracle: composition of per-level position lists (PosModel) and SeqModel on the root. Non-trivial: depth>=2 with a minus level and a "
          "multi-block level, or a child block split across parent blocks, or a chunk cutting a block / missing the location.",
